@@ -328,6 +328,29 @@ func genC12(seed uint64, tier string) *Scenario {
 		sc.Res = append(sc.Res, s)
 		pats = append(pats, pp)
 	}
+	if len(sc.Res) > 0 && r.chance(1, 4) {
+		// the same pattern compiled twice with different options/knobs: state must not be shared through
+		// anything keyed by the pattern text
+		k := r.n(len(sc.Res))
+		twin := sc.Res[k]
+		switch r.n(4) {
+		case 0:
+			twin.Opts ^= oI
+		case 1:
+			twin.HasLimit, twin.Limit = !twin.HasLimit, 40+r.n(200)
+		case 2:
+			twin.Cache, twin.NoBitmap = 1, !twin.NoBitmap
+		default:
+			twin.Opts ^= oRE2 & 0 // identical twin
+		}
+		if !faulty {
+			twin.HasLimit, twin.Limit = false, 0
+		}
+		if v := pristine(twin, &Op{Kind: OpGroupInfo}, scriptOpCap); !(len(v.res) > 8 && v.res[:8] == "COMPILE:") {
+			sc.Res = append(sc.Res, twin)
+			pats = append(pats, pats[k])
+		}
+	}
 	nre = len(sc.Res)
 	if nre == 0 {
 		return sc
